@@ -330,3 +330,211 @@ package input
 //@ lemma lang_DecoratorMethod(x string)
 //@   property C11
 //@   ensures [equiv] matches(x, regexDecoratorMethod) <==> inLang(x, goFuncL())
+
+// ---- C11 layer 2: each validator accepts exactly when the documented conditions hold (code regexes here;
+// their languages are tied to the documented grammar by the lang_* lemmas above).
+
+//@ func validateRegexField inline
+//@ func validateOptionalPtrField inline
+//@ func newErrUnsupportedType inline
+
+//@ func ValidateParams pure
+//@   property C11
+//@   ensures [accept_sound @a] result == nil ==> (forall n string :: n in i.Params ==> matches(n, regexParamName) && types.IsPrimitive(i.Params[n]))
+//@   ensures [accept_complete @b] (forall n string :: n in i.Params ==> matches(n, regexParamName) && types.IsPrimitive(i.Params[n])) ==> result == nil
+//@   loop 1
+//@     invariant [nonnil] forall j int :: 0 <= j && j < len(errs) ==> errs[j] != nil
+//@     invariant [a @a] len(errs) == 0 ==> (forall q int :: 0 <= q && q < $i ==> matches(maps.Keys(i.Params)[q], regexParamName) && types.IsPrimitive(i.Params[maps.Keys(i.Params)[q]]))
+//@     invariant [b @b] (forall q int :: 0 <= q && q < $i ==> matches(maps.Keys(i.Params)[q], regexParamName) && types.IsPrimitive(i.Params[maps.Keys(i.Params)[q]])) ==> len(errs) == 0
+
+//@ func ValidateMetaPkg pure
+//@   property C11
+//@   ensures [accept_iff] (result == nil) <==> (m.Pkg == nil || matches(*m.Pkg, regexpMetaPkg))
+//@ func ValidateMetaContainerType pure
+//@   property C11
+//@   ensures [accept_iff] (result == nil) <==> (m.ContainerType == nil || matches(*m.ContainerType, regexpMetaContainerType))
+//@ func ValidateMetaContainerConstructor pure
+//@   property C11
+//@   ensures [accept_iff] (result == nil) <==> (m.ContainerConstructor == nil || matches(*m.ContainerConstructor, regexpMetaContainerConstructor))
+
+//@ func ValidateMetaImports pure
+//@   property C11 C14
+//@   ensures [accept_sound @a] result == nil ==> (forall a string :: a in m.Imports ==> matches(a, regexMetaImportAlias) && matches(m.Imports[a], regexMetaImport))
+//@   ensures [accept_complete @b] (forall a string :: a in m.Imports ==> matches(a, regexMetaImportAlias) && matches(m.Imports[a], regexMetaImport)) ==> result == nil
+//@   loop 1
+//@     invariant [nonnil] forall j int :: 0 <= j && j < len(errs) ==> errs[j] != nil
+//@     invariant [a @a] len(errs) == 0 ==> (forall a string :: a in visited ==> matches(a, regexMetaImportAlias) && matches(m.Imports[a], regexMetaImport))
+//@     invariant [b @b] (forall a string :: a in visited ==> matches(a, regexMetaImportAlias) && matches(m.Imports[a], regexMetaImport)) ==> len(errs) == 0
+
+//@ func ValidateMetaFunctions pure
+//@   property C11
+//@   ensures [accept_sound @a] result == nil ==> (forall f string :: f in m.Functions ==> matches(f, regexMetaFn) && matches(m.Functions[f], regexMetaGoFn))
+//@   ensures [accept_complete @b] (forall f string :: f in m.Functions ==> matches(f, regexMetaFn) && matches(m.Functions[f], regexMetaGoFn)) ==> result == nil
+//@   loop 1
+//@     invariant [nonnil] forall j int :: 0 <= j && j < len(errs) ==> errs[j] != nil
+//@     invariant [a @a] len(errs) == 0 ==> (forall f string :: f in visited ==> matches(f, regexMetaFn) && matches(m.Functions[f], regexMetaGoFn))
+//@     invariant [b @b] (forall f string :: f in visited ==> matches(f, regexMetaFn) && matches(m.Functions[f], regexMetaGoFn)) ==> len(errs) == 0
+
+// reservedGetters holds exactly the exported method names of *container.Container (init#2, by reflection; A10).
+//@ global_assumed [reserved_getters C13 C11] reservedGetters != nil && (forall n string :: n in reservedGetters ==> reservedGetters[n])
+//@                 && (forall n string :: (n in reservedGetters) <==> isMethodOf(n, "github.com/gontainer/gontainer-helpers/v3/container.Container"))
+
+//@ func ValidateServiceName pure
+//@   property C11
+//@   ensures [accept_iff] (result == nil) <==> matches(n, regexServiceName)
+
+// creation-method rules: something must create the service; constructor and value exclude each other; arguments need a constructor
+//@ func ValidateConstructorType pure
+//@   property C11
+//@   ensures [accept_iff] (result == nil) <==>
+//@        (!(s.Constructor == nil && s.Value == nil && s.Type == nil) && !(s.Constructor != nil && s.Value != nil) && !(len(s.Args) > 0 && s.Constructor == nil))
+
+// getter: not a method of the embedded container, no "Must" prefix, no "InContext" suffix, a Go identifier (C13, C11)
+//@ func ValidateServiceGetter pure
+//@   property C11 C13
+//@   ensures [accept_iff] (result == nil) <==> (s.Getter == nil ||
+//@        (!isMethodOf(*s.Getter, "github.com/gontainer/gontainer-helpers/v3/container.Container")
+//@         && !hasPrefix(*s.Getter, "Must") && !hasSuffix(*s.Getter, "InContext") && matches(*s.Getter, regexServiceGetter)))
+
+//@ func ValidateServiceType pure
+//@   property C11
+//@   ensures [accept_iff] (result == nil) <==> (s.Type == nil || matches(*s.Type, regexServiceType))
+//@ func ValidateServiceValue pure
+//@   property C11
+//@   ensures [accept_iff] (result == nil) <==> (s.Value == nil || matches(*s.Value, regexServiceValue))
+//@ func ValidateServiceConstructor pure
+//@   property C11
+//@   ensures [accept_iff] (result == nil) <==> (s.Constructor == nil || matches(*s.Constructor, regexServiceConstructor))
+
+//@ func ValidateServiceArgs pure
+//@   property C11
+//@   ensures [accept_sound @a] result == nil ==> (forall j int :: 0 <= j && j < len(s.Args) ==> types.IsPrimitive(s.Args[j]))
+//@   ensures [accept_complete @b] (forall j int :: 0 <= j && j < len(s.Args) ==> types.IsPrimitive(s.Args[j])) ==> result == nil
+//@   loop 1
+//@     invariant [nonnil] forall j int :: 0 <= j && j < len(errs) ==> errs[j] != nil
+//@     invariant [a @a] len(errs) == 0 ==> (forall j int :: 0 <= j && j < $i ==> types.IsPrimitive(s.Args[j]))
+//@     invariant [b @b] (forall j int :: 0 <= j && j < $i ==> types.IsPrimitive(s.Args[j])) ==> len(errs) == 0
+
+//@ spec allNil(es []error, k int) bool = forall q int :: 0 <= q && q < k ==> es[q] == nil
+//@ spec callOK(c Call) bool = matches(c.Method, regexServiceCallName) && (forall a int :: 0 <= a && a < len(c.Args) ==> types.IsPrimitive(c.Args[a]))
+//@ spec callOKUpTo(c Call, k int) bool = matches(c.Method, regexServiceCallName) && (forall a int :: 0 <= a && a < k ==> types.IsPrimitive(c.Args[a]))
+
+//@ func ValidateServiceCalls pure
+//@   property C11
+//@   ensures [accept_sound @a] result == nil ==> (forall c int :: 0 <= c && c < len(s.Calls) ==> callOK(s.Calls[c]))
+//@   ensures [accept_complete @b] (forall c int :: 0 <= c && c < len(s.Calls) ==> callOK(s.Calls[c])) ==> result == nil
+//@   loop 1
+//@     invariant [a @a] allNil(errs, len(errs)) ==> (forall c int :: 0 <= c && c < $i ==> callOK(s.Calls[c]))
+//@     invariant [b @b] (forall c int :: 0 <= c && c < $i ==> callOK(s.Calls[c])) ==> allNil(errs, len(errs))
+//@   loop 2
+//@     invariant [len] len(cErrs) >= 1
+//@     invariant [a @a] allNil(cErrs, len(cErrs)) ==> callOKUpTo(c, $i)
+//@     invariant [b @b] callOKUpTo(c, $i) ==> allNil(cErrs, len(cErrs))
+
+//@ func ValidateServiceFields pure
+//@   property C11
+//@   ensures [accept_sound @a] result == nil ==> (forall n string :: n in s.Fields ==> matches(n, regexServiceFieldName) && types.IsPrimitive(s.Fields[n]))
+//@   ensures [accept_complete @b] (forall n string :: n in s.Fields ==> matches(n, regexServiceFieldName) && types.IsPrimitive(s.Fields[n])) ==> result == nil
+//@   loop 1
+//@     invariant [a @a] allNil(errs, len(errs)) ==> (forall q int :: 0 <= q && q < $i ==> matches(maps.Keys(s.Fields)[q], regexServiceFieldName) && types.IsPrimitive(s.Fields[maps.Keys(s.Fields)[q]]))
+//@     invariant [b @b] (forall q int :: 0 <= q && q < $i ==> matches(maps.Keys(s.Fields)[q], regexServiceFieldName) && types.IsPrimitive(s.Fields[maps.Keys(s.Fields)[q]])) ==> allNil(errs, len(errs))
+
+// occ(tags, n, k): how many of the first k tags are named n (definitional recursion).
+//@ spec occ(tags []Tag, n string, k int) int
+//@ axiom [occ_0] forall tags []Tag, n string :: occ(tags, n, 0) == 0
+//@ axiom [occ_step] forall tags []Tag, n string, k int :: 0 <= k && k < len(tags) ==> occ(tags, n, k + 1) == occ(tags, n, k) + (tags[k].Name == n ? 1 : 0)
+//@ axiom [occ_nonneg] forall tags []Tag, n string, k int :: 0 <= k && k <= len(tags) ==> occ(tags, n, k) >= 0 && occ(tags, n, k) <= k
+
+// tags: every name matches the grammar and no name occurs twice
+//@ func ValidateServiceTags pure
+//@   property C11 C04
+//@   ensures [accept_sound_names @a] result == nil ==> (forall j int :: 0 <= j && j < len(s.Tags) ==> matches(s.Tags[j].Name, regexServiceTag))
+//@   ensures [accept_sound_unique @a] result == nil ==> (forall n string :: occ(s.Tags, n, len(s.Tags)) <= 1)
+//@   ensures [accept_complete @b] (forall j int :: 0 <= j && j < len(s.Tags) ==> matches(s.Tags[j].Name, regexServiceTag))
+//@                              && (forall n string :: occ(s.Tags, n, len(s.Tags)) <= 1) ==> result == nil
+//@   loop 1
+//@     invariant [counters_nonnil] counters != nil
+//@     invariant [counters_dom] forall n string :: (n in counters) <==> occ(s.Tags, n, $i) >= 1
+//@     invariant [counters_val] forall n string :: n in counters ==> counters[n] == occ(s.Tags, n, $i)
+//@     invariant [a @a] allNil(errs, len(errs)) ==> (forall j int :: 0 <= j && j < $i ==> matches(s.Tags[j].Name, regexServiceTag))
+//@     invariant [b @b] (forall j int :: 0 <= j && j < $i ==> matches(s.Tags[j].Name, regexServiceTag)) ==> allNil(errs, len(errs))
+//@   loop 2
+//@     invariant [a @a] allNil(errs, len(errs)) ==> (forall j int :: 0 <= j && j < len(s.Tags) ==> matches(s.Tags[j].Name, regexServiceTag))
+//@                                               && (forall q int :: 0 <= q && q < $i ==> counters[maps.Keys(counters)[q]] <= 1)
+//@     invariant [b @b] (forall j int :: 0 <= j && j < len(s.Tags) ==> matches(s.Tags[j].Name, regexServiceTag))
+//@                     && (forall q int :: 0 <= q && q < $i ==> counters[maps.Keys(counters)[q]] <= 1) ==> allNil(errs, len(errs))
+
+//@ spec isTodo(s Service) bool = s.Todo != nil && *s.Todo
+// a service passes when its name is well formed and, unless it is a todo placeholder, every attribute validator accepts it (C11, C15)
+//@ spec attrsOK(s Service) bool =
+//@      ValidateConstructorType(s) == nil && ValidateServiceConstructor(s) == nil && ValidateServiceGetter(s) == nil
+//@   && ValidateServiceType(s) == nil && ValidateServiceValue(s) == nil && ValidateServiceArgs(s) == nil
+//@   && ValidateServiceCalls(s) == nil && ValidateServiceFields(s) == nil && ValidateServiceTags(s) == nil
+//@ spec svcOK(n string, s Service) bool = ValidateServiceName(n) == nil && (isTodo(s) || attrsOK(s))
+
+//@ func ValidateServices pure
+//@   property C11 C15 C13
+//@   ensures [accept_sound @a] result == nil ==> (forall n string :: n in i.Services ==> svcOK(n, i.Services[n]))
+//@   ensures [accept_complete @b] (forall n string :: n in i.Services ==> svcOK(n, i.Services[n])) ==> result == nil
+//@   loop 1
+//@     invariant [a @a] allNil(errs, len(errs)) ==> (forall q int :: 0 <= q && q < $i ==> svcOK(maps.Keys(i.Services)[q], i.Services[maps.Keys(i.Services)[q]]))
+//@     invariant [b @b] (forall q int :: 0 <= q && q < $i ==> svcOK(maps.Keys(i.Services)[q], i.Services[maps.Keys(i.Services)[q]])) ==> allNil(errs, len(errs))
+//@   loop 2
+//@     invariant [len] len(sErrs) == 1 + $i
+//@     invariant [name] sErrs[0] == ValidateServiceName(n)
+//@     invariant [r0] $i > 0 ==> sErrs[1] == ValidateConstructorType(s)
+//@     invariant [r1] $i > 1 ==> sErrs[2] == ValidateServiceConstructor(s)
+//@     invariant [r2] $i > 2 ==> sErrs[3] == ValidateServiceGetter(s)
+//@     invariant [r3] $i > 3 ==> sErrs[4] == ValidateServiceType(s)
+//@     invariant [r4] $i > 4 ==> sErrs[5] == ValidateServiceValue(s)
+//@     invariant [r5] $i > 5 ==> sErrs[6] == ValidateServiceArgs(s)
+//@     invariant [r6] $i > 6 ==> sErrs[7] == ValidateServiceCalls(s)
+//@     invariant [r7] $i > 7 ==> sErrs[8] == ValidateServiceFields(s)
+//@     invariant [r8] $i > 8 ==> sErrs[9] == ValidateServiceTags(s)
+
+//@ func ValidateDecoratorTag pure
+//@   property C11 C04
+//@   ensures [accept_iff] (result == nil) <==> matches(d.Tag, regexDecoratorsTag)
+//@ func ValidateDecoratorMethod pure
+//@   property C11
+//@   ensures [accept_iff] (result == nil) <==> matches(d.Decorator, regexDecoratorMethod)
+//@ func ValidateDecoratorArgs pure
+//@   property C11
+//@   ensures [accept_sound @a] result == nil ==> (forall j int :: 0 <= j && j < len(d.Args) ==> types.IsPrimitive(d.Args[j]))
+//@   ensures [accept_complete @b] (forall j int :: 0 <= j && j < len(d.Args) ==> types.IsPrimitive(d.Args[j])) ==> result == nil
+//@   loop 1
+//@     invariant [nonnil] forall j int :: 0 <= j && j < len(errs) ==> errs[j] != nil
+//@     invariant [a @a] len(errs) == 0 ==> (forall j int :: 0 <= j && j < $i ==> types.IsPrimitive(d.Args[j]))
+//@     invariant [b @b] (forall j int :: 0 <= j && j < $i ==> types.IsPrimitive(d.Args[j])) ==> len(errs) == 0
+
+//@ spec decOK(d Decorator) bool = ValidateDecoratorTag(d) == nil && ValidateDecoratorMethod(d) == nil && ValidateDecoratorArgs(d) == nil
+
+//@ func ValidateDecorators pure
+//@   property C11 C04
+//@   ensures [accept_sound @a] result == nil ==> (forall j int :: 0 <= j && j < len(i.Decorators) ==> decOK(i.Decorators[j]))
+//@   ensures [accept_complete @b] (forall j int :: 0 <= j && j < len(i.Decorators) ==> decOK(i.Decorators[j])) ==> result == nil
+//@   loop 1
+//@     invariant [a @a] allNil(errs, len(errs)) ==> (forall j int :: 0 <= j && j < $i ==> decOK(i.Decorators[j]))
+//@     invariant [b @b] (forall j int :: 0 <= j && j < $i ==> decOK(i.Decorators[j])) ==> allNil(errs, len(errs))
+
+//@ func ValidateMeta pure
+//@   property C11
+//@   ensures [accept_iff] (result == nil) <==> (ValidateMetaPkg(i.Meta) == nil && ValidateMetaContainerType(i.Meta) == nil
+//@        && ValidateMetaContainerConstructor(i.Meta) == nil && ValidateMetaImports(i.Meta) == nil && ValidateMetaFunctions(i.Meta) == nil)
+//@   loop 1
+//@     invariant [len] len(errs) == $i
+//@     invariant [r0] $i > 0 ==> errs[0] == ValidateMetaPkg(i.Meta)
+//@     invariant [r1] $i > 1 ==> errs[1] == ValidateMetaContainerType(i.Meta)
+//@     invariant [r2] $i > 2 ==> errs[2] == ValidateMetaContainerConstructor(i.Meta)
+//@     invariant [r3] $i > 3 ==> errs[3] == ValidateMetaImports(i.Meta)
+//@     invariant [r4] $i > 4 ==> errs[4] == ValidateMetaFunctions(i.Meta)
+
+// Validator.Validate: every configured validator runs and the input is accepted iff all of them accept it (no masking).
+//@ func (Validator).Validate
+//@   property C11
+//@   ensures [accept_sound @a] result == nil ==> (forall j int :: 0 <= j && j < len(v.validators) ==> apply(v.validators[j], m) == nil)
+//@   ensures [accept_complete @b] (forall j int :: 0 <= j && j < len(v.validators) ==> apply(v.validators[j], m) == nil) ==> result == nil
+//@   loop 1
+//@     invariant [nonnil] forall j int :: 0 <= j && j < len(errs) ==> errs[j] != nil
+//@     invariant [a @a] len(errs) == 0 ==> (forall j int :: 0 <= j && j < $i ==> apply(v.validators[j], m) == nil)
+//@     invariant [b @b] (forall j int :: 0 <= j && j < $i ==> apply(v.validators[j], m) == nil) ==> len(errs) == 0
